@@ -7,7 +7,7 @@ from report import Reporter
 import features
 
 
-def run_property(pid, cases_fn, tier, replay, rule, assumptions, nontrivial=None, post=None, budget=200000, extra=None):
+def run_property(pid, cases_fn, tier, replay, rule, assumptions, nontrivial=None, post=None, budget=200000, extra=None, extra_req=None):
     rep = Reporter(pid, tier, "model_checking")
     pool = Pool()
     if replay:
@@ -17,7 +17,7 @@ def run_property(pid, cases_fn, tier, replay, rule, assumptions, nontrivial=None
     else:
         cases = cases_fn(tier, seed())
     cr = CoreRun(pid, pool, budget=budget)
-    cr.execute(cases)
+    cr.execute(cases, extra_req)
     cr.validate(cases)
     n = {"agree": 0, "mismatch": 0, "skip": 0}
     fams = {}
